@@ -147,6 +147,23 @@ def gen_c06(tier, rng):
                 for cuts in sets:
                     traces.append(run_stream("s%d" % k, "c06", kind, d, data, sent, cuts, [1], single))
                     k += 1
+    # long streams: many frames (also maximum-size ones), a read that ends inside a frame followed by large reads
+    big = Pool(rng, kinds, 10 if tier == "quick" else 40, small=False)
+    for kind in kinds:
+        for d in ("req", "rsp"):
+            for _ in range(6 if tier == "quick" else 60):
+                frames = [big.pick(kind, d) if rng.random() < 0.3 else pool.pick(kind, d) for _ in range(rng.randint(8, 40))]
+                data, sent = mk_stream(frames)
+                n = len(data)
+                plans = []
+                first = rng.randint(1, min(n - 1, 30))
+                plans.append((first,))                                           # a few bytes, then everything else in one read
+                for size in (7, 64, 260, 261, 1024):
+                    plans.append(tuple(range(first, n, size)))                   # fixed-size reads after an odd first read
+                plans.append(tuple(sorted(set(rng.randint(1, n - 1) for _ in range(rng.randint(3, 25))))))
+                for cuts in plans:
+                    traces.append(run_stream("s%d" % k, "c06", kind, d, data, sent, cuts, [1], False))
+                    k += 1
     return traces
 
 
@@ -176,8 +193,8 @@ def faults_of(fr, rng, tier):
     for i in range(n):
         out.append(b[:i] + b[i + 1:])                  # deletion
     for i in (range(n + 1) if tier != "quick" else rng.sample(range(n + 1), min(n + 1, 10))):
-        for v in (0x00, 0xFF, 0x3A, 0x7D, 0x41):
-            out.append(b[:i] + bytes([v]) + b[i:])     # insertion
+        for v in (0x00, 0xFF, 0x3A, 0x7D, 0x41, 0x20, 0x09, 0x0D, 0x0A, 0x0B, 0x0C, 0x30):
+            out.append(b[:i] + bytes([v]) + b[i:])     # insertion (incl. the ASCII white space characters)
     for i in range(1, n):
         out.append(b[:i])                              # truncation
     return [x for x in out if x != b]
